@@ -150,6 +150,14 @@ def obj_deserialize_mapper_consuming(parent, data):
     return Department(data.pop("name"), guid=guid)
 
 
+def typed_deserialize_mapper_consuming(parent, data):
+    """typed trees: the entry the mapper is handed carries the node's kind (a mapper may need it to decide what to
+    build); this one takes everything out of the dict it was given - kind and data_id included"""
+    kind = data.pop("kind")
+    assert isinstance(kind, str), kind
+    return obj_deserialize_mapper_consuming(parent, data)
+
+
 def str_mapper(parent, data):
     return data["str"]
 
@@ -166,7 +174,7 @@ def str_chk_deserialize_mapper(parent, data):
     return data["str"]
 
 
-PROFILES = ["str", "obj", "obj_falsy", "obj_pop", "obj_fwd", "dictwrap", "derived", "typed_str", "typed_obj", "typed_derived", "fs", "fs_plain"]
+PROFILES = ["str", "obj", "obj_falsy", "obj_pop", "obj_fwd", "dictwrap", "derived", "typed_str", "typed_obj", "typed_obj_pop", "typed_derived", "fs", "fs_plain"]
 # profiles that only C05 uses: a typed tree of DictWrapper objects with the library's DictWrapper mappers
 C05_PROFILES = PROFILES + ["typed_dictwrap", "typed_str_chk"]
 DW_KINDS = ["child", "x", "y", "z"]
@@ -197,7 +205,7 @@ class Profile:
             return MyTree("T")
         if n in ("typed_str", "typed_str_chk"):
             return TypedTree("T")
-        if n == "typed_obj":
+        if n in ("typed_obj", "typed_obj_pop"):
             return TypedTree("T", calc_data_id=_calc_id)
         if n == "typed_dictwrap":
             return TypedTree("T")
@@ -207,7 +215,7 @@ class Profile:
 
     def cls(self):
         return {"str": Tree, "obj": Tree, "obj_falsy": Tree, "obj_pop": Tree, "obj_fwd": Tree, "fs_plain": Tree, "dictwrap": Tree, "derived": MyTree, "typed_str": TypedTree,
-                "typed_obj": TypedTree, "typed_derived": MyTypedTree, "fs": FileSystemTree, "typed_dictwrap": TypedTree, "typed_str_chk": TypedTree}[self.name]
+                "typed_obj": TypedTree, "typed_obj_pop": TypedTree, "typed_derived": MyTypedTree, "fs": FileSystemTree, "typed_dictwrap": TypedTree, "typed_str_chk": TypedTree}[self.name]
 
     def data(self, label):
         if label in self.pool:
@@ -217,7 +225,7 @@ class Profile:
             d = Tag(label) if label in TAG_LABELS else label
         elif n == "obj_falsy":
             d = FalsyItem(label, guid="f-" + label)
-        elif n in ("obj", "obj_pop", "obj_fwd", "derived", "typed_obj", "typed_derived"):
+        elif n in ("obj", "obj_pop", "obj_fwd", "derived", "typed_obj", "typed_obj_pop", "typed_derived"):
             if label in PERSON_LABELS:
                 d = Person(label, age=20 + LABELS.index(label), guid="p-" + label)
             else:
@@ -268,7 +276,7 @@ class Profile:
     # -- mappers ----------------------------------------------------------------------
     def save_mapper(self):
         n = self.name
-        if n in ("obj", "typed_obj", "obj_falsy", "obj_pop", "obj_fwd"):
+        if n in ("obj", "typed_obj", "typed_obj_pop", "obj_falsy", "obj_pop", "obj_fwd"):
             return obj_serialize_mapper
         if n == "fs_plain":
             return FileSystemTree.serialize_mapper  # the class mappers used as callbacks on a plain Tree
@@ -284,6 +292,8 @@ class Profile:
             return obj_deserialize_mapper
         if n == "obj_pop":
             return obj_deserialize_mapper_consuming
+        if n == "typed_obj_pop":
+            return typed_deserialize_mapper_consuming
         if n == "fs_plain":
             return FileSystemTree.deserialize_mapper
         if n in ("dictwrap", "typed_dictwrap"):
@@ -353,7 +363,7 @@ class Profile:
             keys.append("chk")
         if self.typed:
             keys.append("kind")
-        if n in ("obj", "obj_pop", "obj_fwd", "derived", "typed_obj", "typed_derived"):
+        if n in ("obj", "obj_pop", "obj_fwd", "derived", "typed_obj", "typed_obj_pop", "typed_derived"):
             keys += ["type", "name", "age"]
         if n == "obj_falsy":
             keys += ["type", "name"]
@@ -371,9 +381,9 @@ class Profile:
             out.append("str")
         if self.typed:
             out.append("kind")
-        if n in ("obj", "obj_pop", "obj_fwd", "derived", "typed_obj", "typed_derived", "obj_falsy"):
+        if n in ("obj", "obj_pop", "obj_fwd", "derived", "typed_obj", "typed_obj_pop", "typed_derived", "obj_falsy"):
             out += ["type", "name"]
-        if n in ("obj", "obj_pop", "obj_fwd", "typed_obj"):
+        if n in ("obj", "obj_pop", "obj_fwd", "typed_obj", "typed_obj_pop"):
             out += ["age"]  # number-valued
         if n in ("dictwrap", "typed_dictwrap"):
             out += ["name", "n"]  # "n" is number-valued
